@@ -72,6 +72,20 @@ func cNonFinite(v float64, f fmt.State, c rune) string {
 	return s
 }
 
+// unsignedState presents the flags of a directive as C applies them to an unsigned conversion: the
+// sign flags '+' and ' ' have no meaning there, and '#' adds no prefix to a zero.
+type unsignedState struct {
+	fmt.State
+	zero bool
+}
+
+func (s unsignedState) Flag(c int) bool {
+	if c == '+' || c == ' ' || (c == '#' && s.zero) {
+		return false
+	}
+	return s.State.Flag(c)
+}
+
 // writePadded writes s in a field of the requested width, counted in bytes.
 func writePadded(f fmt.State, s string) {
 	if w, ok := f.Width(); ok && w > len(s) {
